@@ -140,11 +140,18 @@ Fixpoint check_ops_w (c : ccfg) (st : store) (ops : list (cop * obs * (bool * bo
 Definition perm_sel (k : N) (p : dperm) : bool :=
   if k =? 0 then dp_cut p else if k =? 1 then dp_proof p else dp_create p.
 
-Fixpoint perms_match (ps : list dperm) (seen : list (N * bool)) : bool :=
-  match ps, seen with
-  | [], [] => true
-  | p :: ps', s :: seen' => ((fst s =? 3) || Bool.eqb (perm_sel (fst s) p) (snd s)) && perms_match ps' seen'
-  | _, _ => false
+(* per node (probe kind, happened): a consume probe (0 cut, 1 proof) happened iff the node's own
+   permission says so; a create probe (2) happened — the denial learnt at that node is in the shared
+   state after the run — iff the node's own writer or the writer of an ancestor admits it (tree_records);
+   kind 3 (a plain alias hop) probes nothing *)
+Fixpoint perms_match (ps : list dperm) (rs : list bool) (seen : list (N * bool)) : bool :=
+  match ps, rs, seen with
+  | [], [], [] => true
+  | p :: ps', r :: rs', s :: seen' =>
+      ((fst s =? 3) ||
+       Bool.eqb (if (fst s =? 0) || (fst s =? 1) then perm_sel (fst s) p else r) (snd s)) &&
+      perms_match ps' rs' seen'
+  | _, _, _ => false
   end.
 
 Definition check_case (c : case) : bool :=
@@ -187,9 +194,12 @@ Definition check_case (c : case) : bool :=
   | CaseCache c ops => check_ops c [] ops
   | CaseCacheW c ops => check_ops_w c [] ops
   | CaseDenial b t seen =>
-      perms_match (tree_perms (policy_of b) (mk_dctx false false) t) seen
+      perms_match (tree_perms (policy_of b) (mk_dctx false false) t)
+                  (tree_records (policy_of b) (mk_dctx false false) false t) seen
   | CaseDenialWire b t seen =>
-      perms_match (tree_perms_wire (policy_of b) true t) seen
+      (* the byte ladder never creates (wire_ladder_perm): what is recorded is the decoded body's doing *)
+      perms_match (tree_perms_wire (policy_of b) true t)
+                  (tree_records (policy_of b) (mk_dctx false false) false t) seen
   | CaseFailure b remote opts wire consumed =>
       (* bytes first (behind the gate), else the decoded body; the rung of the byte ladder may also
          decline for its own reasons (miss witness), the body then decides: one verdict *)
